@@ -9,6 +9,7 @@
      update_callback_variable with the popped value
  (d) each activation gets a fresh frame: Stack::extend pushes VariableMapping::default()
 """
+import re
 import mir
 import rules
 from mir import op_local, op_const
@@ -230,7 +231,39 @@ def run(ctx, rep):
     if _visit is not None:
         _visit.run(F, rep, "C07.visit")
         _visit.deep(F, rep, "C07.visit-deep")
+    capture_lists_are_complete(F, rep)
 
+
+
+def capture_lists_are_complete(F, rep, rule="C07.capture-list"):
+    """The names after the label of a `make_function` instruction are what the function value captures when it is made; a name that is missing
+    is looked up in the callers' frames when the body runs (wrong variable, or none).  Each emitter of MAKE_FUNCTION that asks for the net
+    dependencies of its node must put all of them on the list: between `net_dependencies()` and the insertion into the list no iterator
+    adapter drops elements (filter / skip / take / step_by ...), in the emitter or its closures."""
+    import opcodes
+    DROPPING = re.compile(r"::(filter|filter_map|skip|skip_while|take|take_while|step_by|map_while|nth|find|find_map|retain|truncate|dedup\w*|drain|pop|remove|swap_remove|split_off)$")
+    emitters = []
+    for f, k, sp in opcodes.id_const_uses(F):
+        if k.get("named", "").endswith("::MAKE_FUNCTION") and f not in emitters:
+            emitters.append(f)
+    rep.floor(rule + " emitters of make_function", len(emitters), 3)
+    for f in emitters:
+        owner = mir.short(re.sub(r"::\{closure#\d+\}", "", f.path))
+        nd = [c for c in f.calls() if c.callee().endswith("::net_dependencies")]
+        if not nd:
+            rep.ob(rule, "%s lists the captured names of the function it makes" % owner, "exempt", "emits make_function without dependencies of its own (class body)", f.span,
+                   fn=f.path, key="%s|%s" % (rule, owner))
+            continue
+        bad = []
+        for g in [f] + F.closures_of(f):
+            for c in g.calls():
+                nm = mir.strip_generics(c.callee())
+                ga = " ".join(c.t["func"].get("ga") or []) + " " + (c.t["func"].get("res") or "") + " " + c.callee()
+                if DROPPING.search(nm) and "Dependency" in ga:
+                    bad.append((mir.short(nm), c.span))
+        rep.ob(rule, "%s lists every net dependency of the function it makes" % owner, "violated" if bad else "ok",
+               ("dependencies are dropped on the way to the list (%s): a variable used only by a function nested in this one is not captured, and is then looked up in "
+                "the callers' frames" % sorted({b[0] for b in bad})) if bad else "", bad[0][1] if bad else f.span, fn=f.path, key="%s|%s" % (rule, owner))
 
 
 def fresh_cell_for_new_names_only(F, rep):
